@@ -7,6 +7,7 @@ CONSTANTS
   MaxOpen = 99
   MaxRetries = 99
   ServerAcks = TRUE
+  MaxReorder = 1
   ReshowAllowed = FALSE
 CONSTRAINT Progress
 POSTCONDITION Accepted
